@@ -200,7 +200,12 @@ class Inliner:
         found = []
 
         def rec(n, ok):
-            if isinstance(n, (ast.Lambda, ast.ListComp, ast.SetComp, ast.DictComp, ast.GeneratorExp)):
+            if isinstance(n, (ast.ListComp, ast.SetComp, ast.DictComp, ast.GeneratorExp)):
+                # only the first iterable of a comprehension is evaluated (once, in the enclosing scope) where it is written;
+                # a generator expression evaluates it eagerly too
+                rec(n.generators[0].iter, ok)
+                return
+            if isinstance(n, ast.Lambda):
                 return
             if isinstance(n, ast.BoolOp):
                 rec(n.values[0], ok)
@@ -294,6 +299,51 @@ def _replace(root, old, new):
     return False
 
 
+def _mentions(node, name):
+    return any(isinstance(n, ast.Name) and n.id == name for n in ast.walk(node))
+
+
+def _append_arg(st, name):
+    """st is `name.append(e)` with e free of name -> e"""
+    if isinstance(st, ast.Expr) and isinstance(st.value, ast.Call):
+        c = st.value
+        if isinstance(c.func, ast.Attribute) and c.func.attr == 'append' and isinstance(c.func.value, ast.Name) \
+                and c.func.value.id == name and len(c.args) == 1 and not c.keywords and not _mentions(c.args[0], name):
+            return c.args[0]
+    return None
+
+
+def _loop_as_element(stmts, name):
+    """the body of `for t in it:` appends exactly one element per (selected) iteration -> (element, [filters]) or None
+       xs.append(e)                                  -> e
+       if c: xs.append(a)  else: xs.append(b)        -> a if c else b
+       if c: xs.append(a)                            -> a, filter c
+       if c: continue ; xs.append(a)                 -> a, filter not c"""
+    if len(stmts) == 1:
+        e = _append_arg(stmts[0], name)
+        if e is not None:
+            return e, []
+        st = stmts[0]
+        if isinstance(st, ast.If) and not _mentions(st.test, name) and len(st.body) == 1:
+            a = _loop_as_element(st.body, name)
+            if a is None:
+                return None
+            if not st.orelse:
+                return a[0], [st.test] + a[1]
+            b = _loop_as_element(st.orelse, name)
+            if b is None or a[1] or b[1]:
+                return None
+            return ast.IfExp(st.test, a[0], b[0]), []
+        return None
+    if len(stmts) == 2 and isinstance(stmts[0], ast.If) and not stmts[0].orelse and len(stmts[0].body) == 1 and \
+            isinstance(stmts[0].body[0], ast.Continue) and not _mentions(stmts[0].test, name):
+        rest = _loop_as_element(stmts[1:], name)
+        if rest is None:
+            return None
+        return rest[0], [ast.UnaryOp(ast.Not(), stmts[0].test)] + rest[1]
+    return None
+
+
 def recover_comprehensions(body):
     """xs = [] ; for t in it: xs.append(e)   ->   xs = [e for t in it]     (the loop body is exactly that append)"""
     out = []
@@ -309,15 +359,15 @@ def recover_comprehensions(body):
                 h.body = recover_comprehensions(h.body)
         nxt = body[i + 1] if i + 1 < len(body) else None
         if isinstance(st, ast.Assign) and len(st.targets) == 1 and isinstance(st.targets[0], ast.Name) \
-                and isinstance(st.value, ast.List) and not st.value.elts and isinstance(nxt, ast.For) and not nxt.orelse \
-                and len(nxt.body) == 1 and isinstance(nxt.body[0], ast.Expr) and isinstance(nxt.body[0].value, ast.Call):
-            c = nxt.body[0].value
+                and isinstance(st.value, ast.List) and not st.value.elts and isinstance(nxt, ast.For) and not nxt.orelse:
             name = st.targets[0].id
-            if isinstance(c.func, ast.Attribute) and c.func.attr == 'append' and isinstance(c.func.value, ast.Name) \
-                    and c.func.value.id == name and len(c.args) == 1 and not c.keywords \
-                    and not any(isinstance(n, ast.Name) and n.id == name for n in ast.walk(c.args[0])) \
-                    and not any(isinstance(n, ast.Name) and n.id == name for n in ast.walk(nxt.iter)):
-                comp = ast.ListComp(c.args[0], [ast.comprehension(nxt.target, nxt.iter, [], 0)])
+            el = _loop_as_element(nxt.body, name) if not _mentions(nxt.iter, name) else None
+            # the loop variables must not be read after the loop (a comprehension does not leak them)
+            tnames = {n.id for n in ast.walk(nxt.target) if isinstance(n, ast.Name)}
+            later = any(isinstance(n, ast.Name) and n.id in tnames and isinstance(n.ctx, ast.Load)
+                        for s_ in body[i + 2:] for n in ast.walk(s_))
+            if el is not None and not later:
+                comp = ast.ListComp(el[0], [ast.comprehension(nxt.target, nxt.iter, el[1], 0)])
                 out.append(ast.copy_location(ast.Assign([ast.Name(name, ast.Store())], comp), st))
                 i += 2
                 continue
